@@ -122,6 +122,12 @@ Theorem C07_concat_reader : forall ts, wf_trees ts -> readable_roots ts -> foral
 Proof. exact concat_read. Qed.
 Print Assumptions C07_concat_reader.
 
+(* any tree of admissible tags whose encoding succeeds below 256^126 octets is well-formed, hence read back *)
+Theorem C07_nested_from_encode : forall x bs, shape_ok x -> encode x = Ok bs -> len bs < P 126 ->
+  wf_tree x /\ strict_parse bs = Some [x].
+Proof. exact nested_from_encode. Qed.
+Print Assumptions C07_nested_from_encode.
+
 (* ---- the hypotheses are satisfiable; boundary examples *)
 Example C07_ex_tree : wf_tree ex_tree /\ exists bs, encode ex_tree = Ok bs /\ len bs = 145.
 Proof. split; [exact ex_tree_wf|]. eexists. split; [vm_compute; reflexivity|reflexivity]. Qed.
